@@ -524,12 +524,24 @@ class Tr:
             if s != 'vec':
                 raise self.err(node, f'[::-1] on sort {s}')
             return f'(List.reverse {a})', 'vec'
+        w = self._window(sl, env)
+        if w is not None and 'getwin' in self.fam.prims:
+            p = self.fam.prims['getwin']
+            a, _ = self.E(node.value, env, p.args[0])
+            return '(' + ' '.join([f'P.{p.field}', a] + w) + ')', p.ret
         if '[]' in self.fam.prims:
             p = self.fam.prims['[]']
             a, _ = self.E(node.value, env, p.args[0])
             i, _ = self.E(sl, env, p.args[1])
             return f'(P.{p.field} {a} {i})', p.ret
         raise self.err(node, 'subscript outside the subset')
+
+    def _window(self, sl, env):
+        """`[a:b, c:d]` (two plain slices with both ends given) -> the four bounds as Int terms"""
+        if isinstance(sl, ast.Tuple) and len(sl.elts) == 2 and all(
+                isinstance(e, ast.Slice) and e.lower is not None and e.upper is not None and e.step is None for e in sl.elts):
+            return [self.E(x, env, 'int')[0] for e in sl.elts for x in (e.lower, e.upper)]
+        return None
 
     def _idiom(self, node, env):
         """reviewed multi-node idioms"""
@@ -642,6 +654,15 @@ class Tr:
                 and env.get(node.func.value.id) == 'vfld':
             a = lname(node.func.value.id)          # `indices.sum(0)`: the sum over the leading (coordinate) axis, per position
             return f'(fun p => List.foldl (fun a b => a + b) (ofNat 0) ({a} p))', 'fld'
+        if d in ('np.zeros', 'np.empty') and len(node.args) == 2 and not node.keywords and isinstance(node.args[0], ast.Tuple) \
+                and len(node.args[0].elts) == 2 and d + '2' in self.fam.prims:
+            p = self.fam.prims[d + '2']
+            parts = [self.E(e, env, 'int')[0] for e in node.args[0].elts] + [self.E(node.args[1], env, p.args[2])[0]]
+            return '(' + ' '.join([f'P.{p.field}'] + parts) + ')', p.ret
+        if d == 'int' and len(node.args) == 1 and not node.keywords and 'int' not in self.fam.prims:
+            a, sa = self._E(node.args[0], env)
+            if sa in ('int', 'nat'):
+                return a, sa                           # int(x) of a Python int
         if d == 'len' and len(node.args) == 1 and not node.keywords:
             a, sa = self._E(node.args[0], env)
             if sa in LIST_ELEM:
@@ -964,6 +985,17 @@ class Tr:
                 return [pad + f'let {t1} := P.{p.field}_x {a_} {b_}', pad + f'let {t2} := P.{p.field}_y {a_} {b_}',
                         pad + f'let {lname(names[0])} := {t1}', pad + f'let {lname(names[1])} := {t2}'] \
                     + self.S(rest, env2, k, ind)
+            if isinstance(val, ast.Call) and dotted(val.func) in self.fam.prims and self.fam.prims[dotted(val.func)].ret == 'nat4' \
+                    and len(names) == 4:
+                # `a, b, c, d = callee(..)` of a callee returning four naturals
+                txt, _ = self._E(val, env)
+                r = self.fresh('q')
+                env2 = dict(env)
+                lines = [pad + f'let {r} := {txt}']
+                for n, prj in zip(names, ('.1', '.2.1', '.2.2.1', '.2.2.2')):
+                    lines.append(pad + f'let {lname(n)} := {r}{prj}')
+                    env2[n] = 'nat'
+                return lines + self.S(rest, env2, k, ind)
             raise self.err(s, 'tuple assignment outside the subset')
         if isinstance(s, (ast.Assign, ast.AugAssign)):
             if isinstance(s, ast.Assign):
@@ -985,6 +1017,14 @@ class Tr:
                 env2 = dict(env)
                 env2[tgt.value.id] = p.ret
                 return [pad + f'let {lname(tgt.value.id)} := P.{p.field} {a} {v}'] + self.S(rest, env2, k, ind)
+            if isinstance(tgt, ast.Subscript) and isinstance(tgt.value, ast.Name) and 'setwin' in self.fam.prims \
+                    and self._window(tgt.slice, env) is not None:
+                # `a[y0:y1, x0:x1] = b`: the window of a is overwritten with b
+                p = self.fam.prims['setwin']
+                a, _ = self.E(tgt.value, env, p.args[0])
+                v, _ = self.E(val, env, p.args[-1])
+                return [pad + f'let {lname(tgt.value.id)} := ' + ' '.join([f'P.{p.field}', a] + self._window(tgt.slice, env) + [v])] \
+                    + self.S(rest, env, k, ind)
             if isinstance(tgt, ast.Subscript) and isinstance(tgt.value, ast.Name) and 'setitem' in self.fam.prims:
                 p = self.fam.prims['setitem']
                 a, _ = self.E(tgt.value, env, p.args[0])
@@ -1486,6 +1526,21 @@ DISK = Family(
         'np.indices': Prim('indices', ['natlist', 'dtype'], 'vfld', doc='`np.indices(shape, float)`: at every position, its coordinate vector'),
     }, extra_params='(ofNat : Nat → K) ', prop='C01')
 
+LEAN_TYPE['nat4'] = 'Nat × Nat × Nat × Nat'
+THIN = Family(
+    'thin', ['A', 'D'], '', 'ThinPrims',
+    {
+        'const:bool': Prim('bool_dtype', [], 'dtype'),
+        'bbox': Prim('bbox', ['arr'], 'nat4', doc='`bbox(img)` of a 2-D image: (min0, max0, min1, max1)'),
+        'np.zeros_like': Prim('zeros_like', ['arr'], 'arr'),
+        'np.zeros2': Prim('zeros2', ['int', 'int', 'dtype'], 'arr', doc='`np.zeros((h, w), dtype)`'),
+        'np.empty2': Prim('empty2', ['int', 'int', 'dtype'], 'arr', doc='`np.empty((h, w), dtype)`'),
+        'getwin': Prim('getwin', ['arr', 'int', 'int', 'int', 'int'], 'arr', doc='`a[y0:y1, x0:x1]`'),
+        'setwin': Prim('setwin', ['arr', 'int', 'int', 'int', 'int', 'arr'], 'arr', doc='`a[y0:y1, x0:x1] = b`'),
+        '_thin': Prim('thin_kernel', ['arr', 'arr', 'int'], 'arr', mutates=0, doc='`_thin.thin(image, buffer, max_iter)`: thins `image` in place'),
+    }, prop='C15')
+MUTATING['_thin'] = 0
+
 HISTO = Family(
     'histogram thresholds', ['H', 'G'], '', 'HistPrims',
     {
@@ -1552,6 +1607,7 @@ TARGETS = [
     Target('labeled.py', 'bwperim', [('bw', 'larr'), ('n', 'nat'), ('mode', 'str')], 'bimg', LABELED),
     Target('morph.py', 'disk', [('radius', 'nat'), ('dim', 'nat')], 'bfld', DISK,
            consts={'bool': ('P.bool_dtype', 'dtype'), 'float': ('P.float_dtype', 'dtype')}),
+    Target('thin.py', 'thin', [('binimg', 'arr'), ('max_iter', 'int')], 'arr', THIN, consts={'bool': ('P.bool_dtype', 'dtype')}),
     Target('euler.py', 'euler', [('f', 'arr'), ('n', 'nat'), ('mode', 'str')], 'res', EULER,
            consts={'_euler_lookup8': ('P.lookup8', 'tbl'), '_euler_lookup4': ('P.lookup4', 'tbl'), '_powers': ('P.powers', 'kern')}),
     # `out` is a LOCAL here (the array that fixes the output shape), not a destination-buffer parameter: it is kept
@@ -1562,7 +1618,7 @@ TARGETS = [
     Target('convolve.py', 'wavelet_center', [('f', 'arr'), ('border', 'int'), ('dtype', 'dtype'), ('cval', 'K')], 'arr', WAVE, raises=True),
     Target('convolve.py', 'wavelet_decenter', [('w', 'arr'), ('oshape', 'intlist'), ('border', 'int')], 'arr', WAVE, raises=True),
 ]
-FAMILIES = [MORPH, CONV, THRESH, HISTO, LAPL, RC, SOFT, EXTREMA, STRETCH, COLORS, COLORS2, WAVE, CIRCLE, RESIZE, EULER, LABELED, DISK]
+FAMILIES = [MORPH, CONV, THRESH, HISTO, LAPL, RC, SOFT, EXTREMA, STRETCH, COLORS, COLORS2, WAVE, CIRCLE, RESIZE, EULER, LABELED, DISK, THIN]
 
 
 def _find_function(tree, name):
